@@ -111,7 +111,10 @@ def run(rep, tier, build, replay=None):
             # interpretation point (DESIGN.md): when the pre-scan finds only lexicons that are skipped (here:
             # extensions whose base is not installed in the fresh database) add() returns before reading the
             # file; nothing is stored, and no exception is demanded
-            all_skipped = bool(re.search(r'<LexiconExtension\b', text)) and not re.search(r'<Lexicon\b', text)
+            # (comments and CDATA sections are not markup: tag-like text inside them must not count — a false alarm of
+            # this oracle after the generator started writing such comments, DESIGN.md E.6)
+            bare = re.sub(r'<!--.*?-->|<!\[CDATA\[.*?\]\]>', '', text, flags=re.S)
+            all_skipped = bool(re.search(r'<LexiconExtension\b', bare)) and not re.search(r'<Lexicon\b', bare)
             if add_ok and not (all_skipped and not rec['add'][1]):
                 rep.fail('add() accepts an invalid document (%s)' % why, case, {'add': rec['add']})
         if not load_ok and add_ok and rec['add'][1]:
